@@ -109,7 +109,7 @@ class _Soup:
             n = rng.choice(ctx["params"])
             return self.typo(n) if self.bad() else n
         aggs = [f for f in fields if f[1] == "agg" and f[2] is not None and f[2].members]
-        if aggs and rng.random() < 0.35:
+        if aggs and rng.random() < (0.6 if want == "any" else 0.35):
             return self.path(ctx, rng.choice(aggs))
         if not cands:
             cands = fields
@@ -128,6 +128,9 @@ class _Soup:
             depth += 1
             if self.rng.random() < 0.5:
                 break
+        # what the path was *meant* to denote, so that an alias of it can be chained through even
+        # when a member name in it is misspelt
+        self.intended = t
         return ".".join(out)
 
     # -- type definitions
@@ -231,23 +234,17 @@ class _Soup:
                 # virtual field: arithmetic, or an alias (possibly of an aggregate or of an earlier alias)
                 vn = W.snake(rng, self.used)
                 if rng.random() < 0.5:
+                    self.intended = "unset"
                     target = self.ref(ctx, want="any")
                     lines.append(f"{indent}let {vn} = {target}")
                     # what the alias denotes, so that later aliases can chain through it
-                    base = target.split(".")
-                    t = None
-                    for f in ctx["fields"]:
-                        if f[0] == base[0]:
-                            t = f[2]
-                            knd = f[1]
-                    for part in base[1:]:
-                        nt = None
-                        if t is not None:
-                            for mn, mt in t.members:
-                                if mn == part:
-                                    nt = mt
-                        t = nt
-                        knd = "agg" if t is not None else "int"
+                    if self.intended != "unset":
+                        t = self.intended
+                    else:
+                        t = None
+                        for f in ctx["fields"]:
+                            if f[0] == target:
+                                t = f[2]
                     ctx["fields"].append((vn, "agg" if t is not None else "int", t))
                     members.append((vn, t))
                 else:
